@@ -45,7 +45,8 @@ class C01Machine(Machine):
         "probe_equals_prefix", "probe_one_short", "split_delivery", "dup_rejected", "clash_rejected",
         "confluence_group", "chain_parts", "multi_char_delimiter", "non_bmp_probe_matched",
         "piece_carrier_canonical", "piece_carrier_synonym", "piece_carrier_via_uri", "piece_carrier_restated",
-        "chain_parts_overlapping", "delivery_not_observed", "catch_up_observation",
+        "chain_parts_overlapping", "delivery_not_observed", "catch_up_observation", "flag_variants_on_hit",
+        "more_than_64_deliveries_between_two_looks", "more_than_256_deliveries_between_two_looks",
         "derived_view_extended_before_first_look", "piece_into_loaded_record",
         "bulk_via_ctor", "bulk_via_epm", "bulk_via_priority", "bulk_via_reverse", "large_owner_map", "derived_view_sub", "derived_view_chain_self", "derived_view_rewire", "derived_view_remap_uri",
         "derived_view_remap_curie", "record_with_pattern", "piece_with_pattern", "records_given_as_generator", "records_given_as_iterator",
@@ -73,12 +74,15 @@ class C01Machine(Machine):
             "p_chain_parts": rng.choice([0.0, 0.0, 0.2]),
             # how often the converter is looked at: after every step, or only every k-th delivery, or only
             # at the end of a schedule (a loaded converter that is extended before its first lookup)
-            "check_every": rng.choice([1, 1, 1, 1, 1, 2, 3, 99]),
+            "check_every": rng.choice([1, 1, 1, 1, 1, 2, 3, 1000000]),
         }
-        huge = large and rng.random() < 0.05      # past 256 records / URI prefixes
+        huge = large and rng.random() < 0.15      # past 256 records / URI prefixes
         cfg["huge"] = huge
         if huge:
+            cfg["check_every"] = rng.choice([1, 1000000, 1000000])
             cfg["n_records"] = rng.choice([128, 129, 255, 256, 257, 258, 300])
+            if cfg["check_every"] > 99 and rng.random() < 0.5:
+                cfg["n_records"] = rng.choice([270, 300])     # room for more than 256 deliveries between two looks
             cfg["curie_pool"] = cfg["curie_pool"] + tokens.synthetic_curie_prefixes(340)
             cfg["uri_pool"] = cfg["uri_pool"] + tokens.synthetic_uri_prefixes(rng.randint(620, 720))
             cfg["n_schedules"] = 1
@@ -114,6 +118,7 @@ class C01Machine(Machine):
         self.schedule_no = 0
         self.focus = []
         self.delimiter_given = None
+        self.n_probe_checks = 0
         self.check_every = int(config.get("check_every", 1))
         self.n_deliveries = 0
         self.dirty = False
@@ -167,7 +172,13 @@ class C01Machine(Machine):
         if rng.random() < cfg["p_ctor_first"]:
             n_first = rng.randint(0, len(recs))
         if cfg.get("huge"):
-            n_first = max(n_first, len(recs) - rng.randint(3, 40))
+            if cfg.get("check_every", 1) >= 3 and rng.random() < 0.6:
+                # a small loaded converter, then hundreds of deliveries between two looks at it
+                n_first = rng.randint(1, 8)
+            else:
+                n_first = max(n_first, len(recs) - rng.randint(3, 40))
+        elif cfg.get("large") and cfg.get("check_every", 1) >= 3 and rng.random() < 0.5:
+            n_first = rng.randint(1, 4)
         first = recs[:n_first]
         later0 = []
         if not cfg.get("huge"):
@@ -306,6 +317,7 @@ class C01Machine(Machine):
             self.owners.register(u, rd["prefix"])
 
     def _catch_up(self):
+        self.unobserved_run = 0
         if self.dirty and self.conv is not None:
             self.dirty = False
             self.focus = []
@@ -582,7 +594,12 @@ class C01Machine(Machine):
         else:
             self.dirty = True
             self.focus = []
+            self.unobserved_run = getattr(self, "unobserved_run", 0) + 1
             self.probe("delivery_not_observed")
+            if self.unobserved_run == 65:
+                self.probe("more_than_64_deliveries_between_two_looks")
+            if self.unobserved_run == 257:
+                self.probe("more_than_256_deliveries_between_two_looks")
         self.note_state(sorted(self.owners.owners.items()), kind, None)
         return {"owners": len(self.owners.owners), "observed": observed}
 
@@ -650,6 +667,25 @@ class C01Machine(Machine):
                 raise Violation(PROP, "compress_mismatch", site,
                                 {"uri": u, "got": gotc, "expected": expc, "delimiter": delim,
                                  "owners": sorted(owners.owners.items())})
+            if want is not None and (self.n_probe_checks % 4 == 0):
+                # the same question with the other flags / spellings (values on hits only: how a miss is
+                # reported in each mode is C08's business)
+                variants = {
+                    "compress(strict=True)": observe.call(conv.compress, u, strict=True),
+                    "compress(passthrough=True)": observe.call(conv.compress, u, passthrough=True),
+                    "compress(strict=True, passthrough=True)": observe.call(conv.compress, u, strict=True, passthrough=True),
+                    "compress_strict": observe.call(conv.compress_strict, u),
+                }
+                for name, gv in variants.items():
+                    if gv != expc:
+                        raise Violation(PROP, "compress_mismatch", site,
+                                        {"uri": u, "call": name, "got": gv, "expected": expc, "delimiter": delim})
+                gs = observe.call(conv.parse_uri, u, strict=True)
+                if gs != exp:
+                    raise Violation(PROP, "parse_uri_mismatch", site,
+                                    {"uri": u, "call": "parse_uri(strict=True)", "got": gs, "expected": exp})
+                self.probe("flag_variants_on_hit")
+            self.n_probe_checks += 1
             goti = observe.call(conv.is_uri, u)
             if goti != ["ok", want is not None]:
                 raise Violation(PROP, "is_uri_mismatch", site,
